@@ -100,3 +100,76 @@ def c01(ctx):
                    "structural forgeries only; primitives are trusted"]
     cov, mn = P.generic_harness_check(ctx, "C01_forge", rule, assumptions, min_nontrivial={"quick": 5000, "thorough": 50000})
     return P.finish(ctx, "exploration", cov, assumptions, mn)
+
+
+# ---------------------------------------------------------------- C06
+fuzz_job("fz_token_raw")
+fuzz_job("fz_token_struct")
+
+
+def fuzz_pair_check(ctx, targets, rule, assumptions, quick_s, thorough_s, max_len, min_nt):
+    """run several libFuzzer targets concurrently, split the cores between them"""
+    from concurrent.futures import ThreadPoolExecutor
+    secs = thorough_s if ctx.tier == "thorough" else quick_s
+    per = max(1, ck.NCPU // len(targets))
+    nrep = 0
+    for t, corp in targets:
+        exe = ck.build_harness(t, "fuzz", src=os.path.join(VERIF, "fuzz", t + ".cc"))
+        nrep += P.run_fuzz_replays(ctx, exe, t)
+    def one(tc):
+        t, corp = tc
+        return t, P.run_fuzz(ctx, t, [os.path.join(VERIF, "corpus", c) for c in corp], secs, per, max_len=max_len)
+    with ThreadPoolExecutor(max_workers=len(targets)) as ex:
+        res = list(ex.map(one, targets))
+    execs = 0; nt = 0; classes = {}; samples = []; fps = set(); per_target = {}
+    for t, (exe, wd, arts, st, ne) in res:
+        P.collect_fuzz(ctx, exe, arts)
+        execs += ne; nt += st["nontrivial"]; fps |= st["fps"]
+        for k, v in st["classes"].items():
+            classes[t + ":" + k] = v
+        samples += st["samples"][:4]
+        per_target[t] = {"execs": ne, "target_evaluations": st["evaluations"], "artifacts": len(arts)}
+        if not ctx.violations:
+            shutil.rmtree(wd, ignore_errors=True)
+    cov = {"evaluations": execs, "distinct_nontrivial": len(fps), "nontrivial_evaluations": nt, "rule": rule, "samples": samples[:10],
+           "classes": classes, "per_target": per_target, "seconds_per_worker": secs, "workers_per_target": per, "replay_tier_inputs": nrep}
+    return P.finish(ctx, "exploration", cov, assumptions, min_nt)
+
+
+@P.check("C06")
+def c06(ctx):
+    """arbitrary token bytes: coverage-guided fuzzing (raw text + structure-aware) under ASan/UBSan/LSan with a semantic oracle"""
+    rule = ("libFuzzer, two targets over a table of 34 checker configurations (no key / oct / RSA / RSA-PSS attr / EC incl. cross-curve pairings / OKP; "
+            "explicit alg, key alg or both; exp/nbf on/off/leeway; iss set; read-only callback; both providers): fz_token_raw feeds the token text as is; "
+            "fz_token_struct gets header bytes, payload bytes and signature bytes, base64url-encodes them (optionally std alphabet / padding) and can sign "
+            "header.payload with the configured key so that accept paths are reached. Oracle in the target: returns without sanitizer report or leak; "
+            "verify==0 => two dots, header decodes to a JSON object with a known string alg, payload decodes to JSON, and (keyed) signature valid under the "
+            "independent verifier. Non-trivial = input that passed both dot scans and header base64 (counted in the target), distinct by hash of (token, config).")
+    assumptions = ["libFuzzer campaigns are only approximately pinned by -seed; saved crash-/leak- artifacts are the reproducible unit",
+                   "timeout/oom/slow-unit artifacts are load noise, not violations",
+                   "known dependency finding (nettle ignores the last Ed448 signature byte) is excluded by construction inside the target and counted"]
+    return fuzz_pair_check(ctx, [("fz_token_raw", ["C06/raw"]), ("fz_token_struct", ["C06/struct"])], rule, assumptions, 40, 600, 65536,
+                           {"quick": 2000, "thorough": 20000}.get(ctx.tier, 2000))
+
+
+# ---------------------------------------------------------------- C07
+fuzz_job("fz_jwks_raw")
+fuzz_job("fz_jwks_shape")
+
+
+@P.check("C07")
+def c07(ctx):
+    """arbitrary JWK/JWKS input: coverage-guided fuzzing (raw bytes + JWK-shape generator) with a keyring well-formedness oracle"""
+    rule = ("libFuzzer, two targets through all entry points (jwks_create_strn, jwks_load_strn onto an existing set, jwks_create, jwks_load, "
+            "jwks_load_fromfp via fmemopen, jwks_load_fromfile via memfd) on both providers: fz_jwks_raw feeds bytes as is (seeded with the repository's key files); "
+            "fz_jwks_shape builds JWK objects member by member (kty alg use key_ops kid crv x y d n e p q dp dq qi k + unknown), each absent / null / number / bool / "
+            "array / object / empty / non-base64 / wrong-length base64 / correct value of a fixture key / arbitrary string, wrapped as bare object, keys array (0-4), "
+            "keys non-array, top-level array or scalar. Oracle: no sanitizer report or leak; not JSON (most lenient jansson flags) => set error + message + no new item; "
+            "JSON (library flags) => no set error, item count = |keys| or 1, kid/oct bytes of item i come from element i, every item has error+message or known kty + "
+            "key material (oct bytes equal decode of k; PEM parses; bits>0) and survives being used by a checker/builder. "
+            "Non-trivial = document that parses and contains an element with a known kty (reached a per-type parser); distinct by hash of (document, entry, provider).")
+    assumptions = ["jansson decides what is JSON (most lenient flags for 'not JSON', library flags for 'JSON')",
+                   "documents whose keys member is not an array are checked for memory safety and item well-formedness only (statement is silent)",
+                   "libFuzzer campaigns are only approximately pinned by -seed; saved artifacts are the reproducible unit"]
+    return fuzz_pair_check(ctx, [("fz_jwks_raw", ["C07/raw"]), ("fz_jwks_shape", [])], rule, assumptions, 40, 600, 16384,
+                           {"quick": 2000, "thorough": 20000}.get(ctx.tier, 2000))
